@@ -187,6 +187,22 @@ func c04Scenarios(tier string) []*Scenario {
 		add([]GNode{n, d("b")})
 		add([]GNode{n, ok("b"), d("c")})
 	}
+	// restart policy x exit_on_end x exit code on one process: the two rules are independent of each other
+	for _, pol := range []string{"", "no", "exit_on_failure", "on_failure"} {
+		for _, eoe := range []bool{false, true} {
+			for _, code := range []int{0, 3, -1} {
+				if pol == "on_failure" && code != 0 {
+					continue // it is relaunched: it has not ended
+				}
+				n := ok("a")
+				if code != 0 {
+					n = fail("a", code)
+				}
+				n.Restart, n.ExitOnEnd = pol, eoe
+				add([]GNode{n, d("b")})
+			}
+		}
+	}
 	// trigger kind x victim kind grid: the code must always be that of the trigger
 	{
 		trig := func(kind string) []GNode {
